@@ -133,4 +133,42 @@ CLAIMS["C12"] = {
             "satisfaction of the equations (C01), digest collisions, the external binaries.",
 }
 
+CLAIMS["C01"] = {
+    "technique": "who-may-emit census + path-sensitive def-use substitution of witness hints into value terms and "
+                 "polynomial-identity checking of v*w-y at every emission site, with finite case splits (sign, zero-ness, "
+                 "divisibility, booleanity); no solver, no execution",
+    "text": "Decides the structural reason for completeness: backend.add_constraint is called only from "
+            "add_constraint_unsafe; at every call of add_constraint_unsafe / add_constraint in the package the constraint "
+            "v*w = y is, on every honest path, a polynomial identity of the hints computed next to it (using a*inv(a)=1 for "
+            "a != 0, exact division under a dominating divisibility test, a%c = a - c*(a//c) and the bit-decomposition "
+            "lemma under its dominating range test) or follows from the dominating run-time check; backends record exactly "
+            "the value given. A wrong hint for some input class (negative, zero, non-divisible) shows up as a non-zero "
+            "normal form in the corresponding case.",
+    "note": "Premise: is_guard() true and ignore_errors() false (the property's own premise); false guards are covered by the "
+            "dummy path (C07). Trusted lemmas are listed in the evidence. Not decided: external provers, libsnark's C++ side.",
+}
+CLAIMS["C03"] = {
+    "technique": "normalisation of each assertion's run-time check and gadget call to canonical affine integer relations "
+                 "(E >= 0, E == 0, E != 0) and comparison; parameter dataflow for widths; name-for-name delegation check; "
+                 "polynomial recognition of the booleanity constraint; CFG must-pass-through for suppression symmetry",
+    "text": "Decides for the seven relational assertions that the relation the run-time check accepts is exactly the relation "
+            "the gadget enforces (same bounds, off-by-one included), that a width parameter used by the check is the one the "
+            "gadget is built with, that every Boolean/fixed-point wrapper delegates to the LinComb method of the same name with "
+            "both operands converted, that declaring a Boolean emits x(1-x)=0 unless explicitly waived and the public "
+            "constructors never waive it, that the gadget call lies on every completing path while the check is suppressible, "
+            "and that secret bounded integers are range-checked on unpack.",
+    "note": "Soundness of the primitive gadgets themselves belongs to C02. Two genuine defects (assert_range bound, "
+            "assert_positive width) were found by these rules and repaired.",
+}
+CLAIMS["C04"] = {
+    "technique": "inductive-invariant check: value-term homomorphism on every LinComb(value, lc) construction per path "
+                 "(polynomial normal forms) + store census of .value/.lc + wrapper attribute census",
+    "text": "Decides that value == eval(lc) (mod p) is preserved by every construction and mutation in the package: each "
+            "LinComb(V, L) has equal value terms for V and L on every path, including error-suppressed and guarded ones; the "
+            "only stores to a .value are reductions modulo (or shifts by multiples of) the active backend's modulus; no .lc "
+            "is re-assigned; the wrappers keep no second copy of the value.",
+    "note": "Relies on R-C01-4 and C13 (backends store what they get and are homomorphic). One genuine defect (suppressed "
+            "integer division reporting 0) was found and repaired.",
+}
+
 NOT_APPLICABLE = {}
